@@ -544,7 +544,8 @@ def execute(desc):
         f_raised = None
       except Exception as e:  # pylint: disable=broad-except
         f_raised = e
-      if type(raised) is not type(f_raised):  # pylint: disable=unidiomatic-typecheck
+      if type(raised).__name__ != type(f_raised).__name__:   # by NAME: the two
+      # objects live in different module sets, so their classes are never identical
         viol = core.violation(
             PROPERTY, 'D3', step, kind,
             'assignment outcome differs from a fresh object with the same '
@@ -668,7 +669,8 @@ def execute(desc):
         f_raised = None
       except Exception as e:  # pylint: disable=broad-except
         f_raised = e
-      if type(raised) is not type(f_raised):  # pylint: disable=unidiomatic-typecheck
+      if type(raised).__name__ != type(f_raised).__name__:   # by NAME: the two
+      # objects live in different module sets, so their classes are never identical
         viol = core.violation(
             PROPERTY, 'D3', step, kind,
             'a refused assignment is refused differently from a fresh object',
